@@ -115,3 +115,27 @@ Proof.
          semver_cls_dot, semver_cls_dash, semver_cls_plus, semver_spec.
   ka.
 Qed.
+
+(* the part of pp_in_r after the optional v, and pp_in_r itself, are within Appendix B (the v is optional, the two regexes are in fact equal) *)
+Definition pp_rest_r : regex' :=
+  r_dot (r_pls r_one (r_dot pi_num_r pep440_cls_bang))
+  (r_dot pi_num_r (r_dot (r_str (r_dot pep440_cls_dot pi_num_r))
+  (r_dot (r_pls r_one pi_pre_r) (r_dot (r_pls r_one pi_post_r) (r_dot (r_pls r_one pi_dev_r) (r_pls r_one pi_local_r)))))).
+Lemma pp_rest_ka : (pp_rest_r : regex') ≦ pep440_spec.
+Proof.
+  unfold pp_rest_r, pi_local_r, pi_seg_r, pi_dev_r, pi_post_r, pi_pre_r, pi_postlabel_r, pi_prelabel_r, W_dev, W_rev, W_post, W_rc, W_pre, W_preview, W_beta, W_alpha,
+         w7, w5, w4, w3, w2, pi_optsep_r, pi_optnum_r, pi_num_r,
+         pep440_cls_digit, pep440_cls_alnum, pep440_cls_dot, pep440_cls_plus, pep440_cls_bang, pep440_cls_sep, pep440_cls_dash,
+         pep440_cls_ci_a, pep440_cls_ci_b, pep440_cls_ci_c, pep440_cls_ci_d, pep440_cls_ci_e, pep440_cls_ci_h, pep440_cls_ci_i, pep440_cls_ci_l,
+         pep440_cls_ci_o, pep440_cls_ci_p, pep440_cls_ci_r, pep440_cls_ci_s, pep440_cls_ci_t, pep440_cls_ci_v, pep440_cls_ci_w, pep440_spec.
+  ka.
+Qed.
+Lemma pp_vrest_ka : (r_dot pep440_cls_ci_v pp_rest_r : regex') ≦ pep440_spec.
+Proof.
+  unfold pp_rest_r, pi_local_r, pi_seg_r, pi_dev_r, pi_post_r, pi_pre_r, pi_postlabel_r, pi_prelabel_r, W_dev, W_rev, W_post, W_rc, W_pre, W_preview, W_beta, W_alpha,
+         w7, w5, w4, w3, w2, pi_optsep_r, pi_optnum_r, pi_num_r,
+         pep440_cls_digit, pep440_cls_alnum, pep440_cls_dot, pep440_cls_plus, pep440_cls_bang, pep440_cls_sep, pep440_cls_dash,
+         pep440_cls_ci_a, pep440_cls_ci_b, pep440_cls_ci_c, pep440_cls_ci_d, pep440_cls_ci_e, pep440_cls_ci_h, pep440_cls_ci_i, pep440_cls_ci_l,
+         pep440_cls_ci_o, pep440_cls_ci_p, pep440_cls_ci_r, pep440_cls_ci_s, pep440_cls_ci_t, pep440_cls_ci_v, pep440_cls_ci_w, pep440_spec.
+  ka.
+Qed.
